@@ -73,6 +73,7 @@ type dbOp struct {
 type schedKnobs struct {
 	WClient, WFlusher, WCompactor int
 	Advance                       int
+	UnlockYield                   bool `json:",omitempty"` // lock releases are scheduling points too
 }
 
 type dbSession struct {
@@ -255,6 +256,7 @@ func (r *dbRunner) runSession(si int, s dbSession) (res sessionResult) {
 			Interval:      time.Second,
 			MaxAdvances:   200,
 			MaxSteps:      2000000,
+			YieldOnUnlock: s.Knobs.UnlockYield,
 		})
 		base := r.dir
 		if s.RelPath {
